@@ -563,3 +563,76 @@ Proof.
   specialize (HS pos). rewrite Forall_forall in *. intros o Ho. destruct (HS o Ho) as [A B].
   split; [exact A|]. split; [exact B|exact (HA o Ho)].
 Qed.
+
+(** * 7. the converse for ONE occurrence, by kind: a rejected command-line occurrence breaks the rule its kind names *)
+Lemma pushed_not_lang a raw vp v : a_vp a = Some vp ->
+  (exists pss, Forall2 (pieces a) (eff_raw a raw) pss /\ In v (pushed a (concat pss))) -> ~ in_lang vp v -> ~ values_ok a raw.
+Proof.
+  intros Evp [pss [F Hin]] Hn [vp' [Evp' H]]. rewrite Evp in Evp'. inversion Evp'; subst vp'.
+  destruct (H pss F) as [HF _]. rewrite Forall_forall in HF. exact (Hn (HF v Hin)).
+Qed.
+
+Theorem react_core_rejection_names_rule c idn a raw st e st' :
+  wf_m (mt st) -> react_core c idn SCmdLine a raw None st = RErr e st' ->
+  (In (e_kind e) [EInvalidValue; EWrongNumberOfValues; ETooFewValues; ETooManyValues] /\ ~ count_ok_occ a raw)
+  \/ (e_kind e = EArgumentConflict /\ set_family a = true /\ self_override c a = false /\ mt_contains (mt st) (a_id a) = true)
+  \/ (In (e_kind e) [EInvalidUtf8; EInvalidValue; EValueValidation] /\ ~ values_ok a raw)
+  \/ (In (e_kind e) [EDisplayHelp; EDisplayVersion] /\ storing a = false).
+Proof.
+  intros Hwf H. rewrite Actions.react_core_unfold in H. cbn [is_cmdline] in H.
+  destruct (verify_num_args c a raw st) as [[]|e0 st0|site] eqn:Ev; cbn [rbind] in H; [|inversion H; subst e0 st0|discriminate H].
+  2:{ left. destruct (verify_num_args_sound c a raw st e st' Ev) as [r [Er [_ [_ [_ [Hk _]]]]]].
+      split; [exact Hk|]. intros [r' [Er' Hr']]. rewrite Er in Er'. inversion Er'; subst r'.
+      exact (verify_num_args_justified c a raw st e st' r Ev Er Hr'). }
+  destruct (occ_values_pieces c a raw) as [pss [Hp Eo]]. rewrite Eo in H. cbn [expect rbind] in H.
+  set (vals := concat pss) in *. unfold react_action in H.
+  assert (PV : forall vs (s1 : Parser.ps) m, wf_m m ->
+            (forall v, In v vs -> In v (pushed a vals) \/ (a_get_action a = ACount /\ vals = [] /\ exists k, k <= 255 /\ v = n_to_dec k)) ->
+            (do m2 <- start_custom_arg c a SCmdLine m; do s2 <- push_arg_values c a vs (s1 <| mt := m2 |>); ROk (s2, PRValuesDone))
+              = RErr e st' ->
+            In (e_kind e) [EInvalidUtf8; EInvalidValue; EValueValidation] /\ ~ values_ok a raw).
+  { intros vs s1 m Wm Hvs HE.
+    destruct (start_custom_arg c a SCmdLine m) as [m2|e1 s0|n1] eqn:Es; cbn [rbind] in HE;
+      [|exfalso; exact (start_custom_arg_no_err c a SCmdLine m e1 s0 Wm Es)|discriminate HE].
+    destruct (push_arg_values c a vs (s1 <| mt := m2 |>)) as [s2|e2 s0|n2] eqn:Ep; cbn [rbind] in HE; try discriminate HE.
+    inversion HE; subst e2 s0.
+    destruct (push_arg_values_sound c a vs _ e st' Ep) as [vp [v [Evp [Hin [Hk [Hnl _]]]]]].
+    split; [exact (proj1 (proj2 (vp_parse_reject_sound vp v (e_kind e) Hk)))|].
+    destruct (Hvs v Hin) as [Hpu|[Ea [En [k [Hk255 ->]]]]].
+    - apply (pushed_not_lang a raw vp v Evp); [exists pss; split; [exact Hp|exact Hpu]|exact Hnl].
+    - intros [vp' [Evp' HV]]. rewrite Evp in Evp'. inversion Evp'; subst vp'.
+      destruct (HV pss Hp) as [_ HC]. rewrite (HC Ea En) in Hk. rewrite (dec_accept k Hk255) in Hk. discriminate Hk. }
+  assert (SL : forall vs bump, set_like c idn SCmdLine a vs bump st = RErr e st' ->
+            (forall v, In v vs -> In v (pushed a vals)) -> set_family a = true ->
+            (e_kind e = EArgumentConflict /\ set_family a = true /\ self_override c a = false /\ mt_contains (mt st) (a_id a) = true)
+            \/ (In (e_kind e) [EInvalidUtf8; EInvalidValue; EValueValidation] /\ ~ values_ok a raw)).
+  { intros vs bump HS Hvs Hf. unfold set_like in HS.
+    set (st1 := if bump && is_cmdline SCmdLine && is_flag_ident idn then ps_bump st else st) in *.
+    assert (E1 : mt st1 = mt st) by (unfold st1; destruct (bump && is_cmdline SCmdLine && is_flag_ident idn); [apply ps_bump_mt|reflexivity]).
+    rewrite E1 in HS. pose proof (mt_remove_wf (mt st) (a_id a) Hwf) as W1. pose proof (mt_remove_removed (mt st) (a_id a)) as R1.
+    destruct (mt_remove (mt st) (a_id a)) as [m1 removed]. cbn [fst snd] in *.
+    destruct (removed && negb (self_override c a)) eqn:Ec.
+    - left. inversion HS; subst. apply andb_prop in Ec. destruct Ec as [Er Eo'].
+      split; [reflexivity|]. split; [exact Hf|]. split; [apply negb_true_iff; exact Eo'|first [exact Er|rewrite <- R1; exact Er]].
+    - right. apply (PV vs (st1 <| mt := m1 |>) m1 W1); [intros v Hv; left; exact (Hvs v Hv)|exact HS]. }
+  unfold pushed in SL, PV. unfold storing, set_family in *.
+  destruct (a_get_action a) eqn:Ea.
+  - destruct (SL vals true H (fun v Hv => Hv) eq_refl) as [X|X]; [right; left; exact X|right; right; left; exact X].
+  - right. right. left.
+    set (st1 := if is_cmdline SCmdLine && is_flag_ident idn then ps_bump st else st) in *.
+    assert (E1 : mt st1 = mt st) by (unfold st1; destruct (is_cmdline SCmdLine && is_flag_ident idn); [apply ps_bump_mt|reflexivity]).
+    rewrite E1 in H. apply (PV vals st1 (mt st) Hwf); [intros v Hv; left; exact Hv|exact H].
+  - destruct (SL _ false H (fun v Hv => Hv) eq_refl) as [X|X]; [right; left; exact X|right; right; left; exact X].
+  - destruct (SL _ false H (fun v Hv => Hv) eq_refl) as [X|X]; [right; left; exact X|right; right; left; exact X].
+  - right. right. left.
+    pose proof (mt_remove_wf (mt st) (a_id a) Hwf) as W1.
+    destruct (mt_remove (mt st) (a_id a)) as [m1 removed]. cbn [fst] in W1.
+    eapply (PV _ st m1 W1); [|exact H].
+    intros v Hv. destruct vals as [|v0 vt] eqn:Evals; [|left; exact Hv].
+    right. split; [reflexivity|]. split; [reflexivity|]. destruct Hv as [<-|[]].
+    eexists. split; [|reflexivity]. apply N.le_min_l.
+  - right. right. right. inversion H; subst. split; [left; reflexivity|reflexivity].
+  - right. right. right. inversion H; subst. split; [left; reflexivity|reflexivity].
+  - right. right. right. inversion H; subst. split; [left; reflexivity|reflexivity].
+  - right. right. right. inversion H; subst. split; [right; left; reflexivity|reflexivity].
+Qed.
